@@ -1,5 +1,5 @@
 (** C12 — every escrow record is well-formed and therefore payable. *)
-From FM Require Import Accept.
+From FM Require Import Accept Reentrant.
 
 (** [wf_gbal g]: at least one asset, every amount in 1 .. 2^128-1, no duplicate denomination,
     token or NFT.  [wf_listing k l]: filed under (creator, id); goods and ask well-formed; ask
@@ -15,6 +15,15 @@ Theorem C12_wf_always : forall w ops, initial w ->
   (forall k b, In (k, b) (buckets s) -> wf_bucket k b).
 Proof. exact reach_wf. Qed.
 Print Assumptions C12_wf_always.
+
+(** The same over histories in which a hostile token contract re-enters the marketplace during
+    dispatch with arbitrary programs (model/Reentry.v): no proviso on who does what. *)
+Theorem C12_wf_always_with_reentry : forall w tx, initial w ->
+  let s := market (rrun w tx) in
+  (forall k l, In (k, l) (listings s) -> wf_listing k l) /\
+  (forall k b, In (k, b) (buckets s) -> wf_bucket k b).
+Proof. exact reach_wf_with_reentry. Qed.
+Print Assumptions C12_wf_always_with_reentry.
 
 (** The invariant is inductive for every message, from every state (not only reachable ones). *)
 Theorem C12_every_message_preserves_wf : forall o e sender fs m s s' out,
